@@ -188,3 +188,45 @@ Example direct_example :
   add_import (mkRcfg "x/src" []) r (mkPkg "a/two/client" "client") =
   AddOk [mkImp "a/one/client" "client" "oneclient"; mkImp "a/two/client" "client" "twoclient"] "a/two/client".
 Proof. vm_compute. split; reflexivity. Qed.
+
+(* ---------- one statement for the three classes ---------- *)
+
+Lemma first_diff_spec i c : forall fuel l k,
+  first_diff i c l fuel = Some k ->
+  l <= k /\ k < l + fuel /\
+  forallb (fun j => String.eqb (un i j) (un c j)) (seq l (k - l)) = true /\
+  String.eqb (un i k) (un c k) = false.
+Proof.
+  induction fuel as [|f IH]; intros l k; [discriminate|]. cbn [first_diff].
+  destruct (String.eqb (un i l) (un c l)) eqn:E.
+  - intros H. destruct (IH _ _ H) as [A [B [C D]]]. split; [lia|]. split; [lia|]. split; [|exact D].
+    replace (k - l) with (S (k - S l)) by lia. cbn [seq forallb]. rewrite E. exact C.
+  - intros H. inversion H; subst. split; [lia|]. split; [lia|]. rewrite Nat.sub_diag. split; [reflexivity|exact E].
+Qed.
+
+Definition RD (r : registry) : Prop := NoDup (map i_path r) /\ QDistinct r.
+
+(* every addition that the model classifies as known, conflict-free or directly resolved keeps
+   both the paths and the qualifiers of the import map pairwise distinct *)
+Theorem add_import_distinct_step cfg r p r' path :
+  RD r -> classify_add cfg r p < 3 -> add_import cfg r p = AddOk r' path -> RD r'.
+Proof.
+  intros [NP D] CL A.
+  assert (NP' : NoDup (map i_path r')).
+  { destruct (add_import_paths _ _ _ _ _ A) as [_ [_ [[E _]|[E NI]]]]; rewrite E; [exact NP|].
+    apply nodup_snoc; assumption. }
+  split; [exact NP'|].
+  unfold classify_add in CL. pose proof A as A0. unfold add_import in A.
+  destruct (String.eqb (strip_vendor (p_path p)) (moq_pkg_path cfg)); [discriminate|].
+  destruct (find_path r (strip_vendor (p_path p))) as [known|] eqn:F.
+  - inversion A; subst. exact D.
+  - set (i := mkImp (strip_vendor (p_path p)) (p_name p)
+                    (match assoc (strip_vendor (p_path p)) (src_aliases cfg) with Some a => a | None => ""%string end)) in *.
+    destruct (search_import r (qualifier i)) as [c|] eqn:S.
+    + destruct (first_diff i c 0 16) as [l|] eqn:FD; [|lia].
+      destruct (direct r i c l) eqn:DIR; [|lia].
+      destruct (first_diff_spec _ _ _ _ _ FD) as [_ [LT _]].
+      assert (L : l < resolve_fuel) by (unfold resolve_fuel; lia).
+      destruct (add_import_distinct_direct cfg r p c l r' path NP D F S L DIR A0) as [_ Q]. exact Q.
+    + eapply add_import_distinct_no_conflict; [exact D|exact F|exact S|exact A0].
+Qed.
